@@ -43,6 +43,28 @@ def stJson (c : Cfg) (s : St) : Json :=
     ("halt", haltJson s.halt), ("stopped", toJson (stopped c s)),
     ("phys", ratToJson (perf s).1), ("logical", ratToJson (perf s).2)]
 
+/-- per-iteration trace of the loop the pipeline runs (same configuration as `samplesPipeline`):
+for every iteration that entered the loop body `[len(output) before, nb_gen asked or null]`, plus
+the size asked for the first batch. -/
+def pipelineTrace (i : SamplesIn) (ops : List Shot) : Except String Json := do
+  match computeSamples i.maxSamples i.maxShots with
+  | .ok (some (p + 1)) =>
+    match computeSamplesWithPerf i.filter (p + 1) i.prePerf i.zpp i.maxShots, i.maxSamples with
+    | .ok (p' + 1, sh'), some ms =>
+      let c : Cfg := ⟨ms, sh', i.hasCallback⟩
+      let rec go (s : St) (ops : List Shot) (acc : Array Json) : Array Json × St :=
+        match ops with
+        | [] => (acc, s)
+        | op :: rest =>
+          let (s', ev) := step c s op
+          go s' rest (if ev.ran then acc.push (Json.arr #[toJson s.out, optNatJson ev.asked]) else acc)
+      let (tr, sEnd) := go (init (i.firstBatch (p' + 1))) ops #[]
+      if sEnd ≠ loop c (i.firstBatch (p' + 1)) ops then throw "driver inconsistency"
+      return Json.mkObj [("prepare", toJson (p' + 1)), ("iters", Json.arr tr),
+        ("stopped", toJson (stopped c sEnd)), ("shotsLimit", optNatJson sh')]
+    | _, _ => return Json.null
+  | _ => return Json.null
+
 def handleReq (j : Json) : Except String Json := do
   let op ← strOf j "op"
   match op with
@@ -79,18 +101,27 @@ def handleReq (j : Json) : Except String Json := do
     let zpp ← ratOfJson (← j.getObjVal? "zpp")
     if pre < 0 ∨ 1 < zpp ∨ zpp < 0 then throw "domain"
     let src ← boolOf j "source"
-    let i : SamplesIn := ⟨← optNat j "ms", ← optNat j "sh", ← natOf j "filter", pre, zpp,
-      (fun n => if src then n else 0), ← boolOf j "cb"⟩
+    -- length of the first batch: `null` = what the code asks for (source) / nothing (distribution);
+    -- a number = what a scripted source hands back whatever it is asked
+    let firstOv ← optNat j "first"
+    let fb : Nat → Nat := fun n => match firstOv with
+      | some k => k
+      | none => if src then n else 0
+    let i : SamplesIn := ⟨← optNat j "ms", ← optNat j "sh", ← natOf j "filter", pre, zpp, fb, ← boolOf j "cb"⟩
     let ops ← shotsOf j "ops"
     match samplesPipeline i ops with
     | .error "domain" => throw "domain"
     | .error "unreachable" => throw "unreachable"
-    | .error e => return Json.mkObj [("raise", .str e)]
+    | .error e =>
+      -- the requests made before the failure are still observable
+      return Json.mkObj [("raise", .str e), ("trace", ← pipelineTrace i ops)]
     | .result n ph lg st =>
-      let extra := match st with
-        | none => [("loop", Json.null)]
-        | some s => [("loop", Json.mkObj [("shots", toJson s.shots), ("halt", haltJson s.halt),
-            ("notSel", toJson s.notSel), ("notSelPhys", toJson s.notSelPhys)])]
+      let extra ← match st with
+        | none => pure [("loop", Json.null)]
+        | some s => do
+          let tr ← pipelineTrace i ops
+          pure [("loop", Json.mkObj [("shots", toJson s.shots), ("halt", haltJson s.halt),
+            ("notSel", toJson s.notSel), ("notSelPhys", toJson s.notSelPhys)]), ("trace", tr)]
       return Json.mkObj ([("n", toJson n), ("phys", ratToJson ph), ("logical", ratToJson lg)] ++ extra)
   | "p2sc" =>
     let ps ← ratList (← j.getObjVal? "ps")
